@@ -425,6 +425,53 @@ class Report:
         self._crosscheck(name, case, sy, pre, paths)
         return paths
 
+    def float_companion(self, name, case, sy, pre, envs, rtol=1e-9, only=None):
+        """Concrete companion of a symbolic case at extreme but legal float inputs: the real code is
+        run natively at each env and every real-valued result is compared with the EXACT value of the
+        expected expression there (mpmath, 40 digits).  Symbols are real numbers, so a rewrite that is
+        algebraically identical but loses its digits (or overflows) in a legal region is invisible to
+        the symbolic obligation; this is where it shows.  The points are chosen where the unchanged
+        code is accurate; an obligation fails only if the native value is off by more than rtol."""
+        from .explore import explore
+        from .numeval import evalf, evalb
+
+        if self.replay_target is not None:
+            return
+        try:
+            paths = explore(lambda: case(sy), pre, max_paths=256)
+        except Exception as e:  # noqa
+            self.add(Ob(f"{name}/float-companion", "post", UNDECIDED, "engine", 0, f"{type(e).__name__}: {e}"))
+            return
+        for env in envs:
+            tag = ",".join(f"{k}={v:g}" for k, v in env.items())
+            path = None
+            for p in paths:
+                try:
+                    if p.exc is None and all(evalb(c, env) for c in p.pc if not isinstance(c, bool)):
+                        path = p
+                        break
+                except Exception:  # noqa
+                    continue
+            if path is None:
+                continue
+            try:
+                native = {t[0]: t[1] for t in _triples4(case(sy.numeric(env)))}
+            except Exception as e:  # noqa
+                self.add(Ob(f"{name}/float-companion[{tag}]/no-exception", "post", REFUTED, "native", 0, f"{type(e).__name__}: {e}", dict(env), {"confirmed": True}))
+                continue
+            for sub, _got, exp, _o in _triples4(path.result):
+                if only is not None and sub not in only:
+                    continue
+                if not isinstance(exp, R) or sub not in native:
+                    continue
+                try:
+                    e_ = float(evalf(exp, env, mp=True))
+                    g_ = float(native[sub])
+                except Exception:  # noqa
+                    continue
+                ok = abs(g_ - e_) <= rtol * max(abs(e_), 1e-300) or (e_ == 0 and abs(g_) <= rtol)
+                self.add(Ob(f"{name}/float-companion[{tag}]/{sub}", "post", PROVED if ok else REFUTED, "native+mpmath", 0, f"native {g_!r} exact {e_!r}", {} if ok else dict(env, observed=g_, exact=e_), {} if ok else {"confirmed": True, "observed_native": g_, "expected_spec": e_}))
+
     crosschecks = 0
     crosscheck_mismatches = 0
 
